@@ -602,6 +602,97 @@ def rule_overload_counter(ctx, rep: Report, rid="Q4"):
         raise AnalysisError(f"{rep.prop}/{rid}: variable-index subscript not found in extract_docstring")
 
 
+def _defval_test(e: ast.AST, var: str) -> Optional[bool]:
+    """`<var>.find('defval') is not None` -> True, `... is None` -> False, anything else -> None."""
+    if isinstance(e, ast.Compare) and len(e.ops) == 1 and isinstance(e.ops[0], (ast.Is, ast.IsNot)) \
+            and isinstance(e.comparators[0], ast.Constant) and e.comparators[0].value is None \
+            and isinstance(e.left, ast.Call) and isinstance(e.left.func, ast.Attribute) and e.left.func.attr == "find" \
+            and unparse(e.left.func.value) == var and e.left.args and isinstance(e.left.args[0], ast.Constant) and e.left.args[0].value == "defval":
+        return isinstance(e.ops[0], ast.IsNot)
+    return None
+
+
+def _counts_defaults(prog, ci, e: ast.AST) -> Optional[str]:
+    """If `e` computes the number of elements of a collection that have a <defval> child (one per element), the text of
+    the collection; None otherwise.  Forms: sum of 1/0 over a comprehension, sum(1 for .. if ..), len([.. if ..]), or
+    a helper method whose body is the counting loop."""
+    if isinstance(e, ast.Call) and isinstance(e.func, ast.Name) and e.func.id in ("sum", "len") and len(e.args) == 1 \
+            and isinstance(e.args[0], (ast.ListComp, ast.GeneratorExp)) and len(e.args[0].generators) == 1:
+        comp = e.args[0]
+        g = comp.generators[0]
+        if not isinstance(g.target, ast.Name):
+            return None
+        v = g.target.id
+        if e.func.id == "sum" and isinstance(comp.elt, ast.IfExp) and not g.ifs and isinstance(comp.elt.body, ast.Constant) and isinstance(comp.elt.orelse, ast.Constant):
+            t = _defval_test(comp.elt.test, v)
+            if t is not None and (comp.elt.body.value, comp.elt.orelse.value) == ((1, 0) if t else (0, 1)):
+                return unparse(g.iter)
+        if len(g.ifs) == 1 and _defval_test(g.ifs[0], v) is True and \
+                ((e.func.id == "sum" and isinstance(comp.elt, ast.Constant) and comp.elt.value == 1) or e.func.id == "len"):
+            return unparse(g.iter)
+        return None
+    if isinstance(e, ast.Call) and isinstance(e.func, ast.Attribute) and unparse(e.func.value) in ("self", ci.qual) and len(e.args) == 1:
+        h = prog.find_method(ci, e.func.attr)
+        if h is None:
+            return None
+        hf = h[1]
+        hp = [a.arg for a in hf.args.args if a.arg != "self"]
+        loops = [l for l in walk_no_nested(hf) if isinstance(l, ast.For)]
+        rets = [r.value for r in walk_no_nested(hf) if isinstance(r, ast.Return) and r.value is not None]
+        if len(hp) == 1 and len(rets) == 1 and isinstance(rets[0], ast.Name) and len(loops) == 1 and isinstance(loops[0].target, ast.Name) \
+                and unparse(loops[0].iter) == hp[0]:
+            cnt = rets[0].id
+            init = [st for st in hf.body if isinstance(st, ast.Assign) and unparse(st.targets[0]) == cnt and isinstance(st.value, ast.Constant) and st.value.value == 0]
+            body = loops[0].body
+            if init and len(body) == 1 and isinstance(body[0], ast.If) and not body[0].orelse and _defval_test(body[0].test, loops[0].target.id) is True \
+                    and len(body[0].body) == 1 and isinstance(body[0].body[0], ast.AugAssign) and isinstance(body[0].body[0].op, ast.Add) \
+                    and unparse(body[0].body[0].target) == cnt and isinstance(body[0].body[0].value, ast.Constant) and body[0].body[0].value.value == 1:
+                return unparse(e.args[0])
+            return None
+        if len(hp) == 1 and len(rets) == 1:
+            inner = _counts_defaults(prog, ci, rets[0])
+            if inner == hp[0]:
+                return unparse(e.args[0])
+    return None
+
+
+def _count_kind(prog, ci, fn, e: ast.AST, plist: str, la) -> str:
+    """'total' for len(<param list>) (or a local bound to it), 'required' for total minus the number of parameters with a default."""
+    def resolve(x):
+        if isinstance(x, ast.Name):
+            vs = [st.value for st in la.get(x.id, []) if isinstance(st, ast.Assign)]
+            if len(vs) == 1:
+                return vs[0]
+        return x
+    e = resolve(e)
+    if unparse(e).replace(" ", "") == f"len({plist})":
+        return "total"
+    if isinstance(e, ast.BinOp) and isinstance(e.op, ast.Sub):
+        left = resolve(e.left)
+        if unparse(left).replace(" ", "") == f"len({plist})" and _counts_defaults(prog, ci, resolve(e.right)) == plist:
+            return "required"
+    return "?"
+
+
+def _declared_name_of(prog, ci, e: ast.AST, elem_ok) -> bool:
+    """`e` yields the declared-name element of the parameter picked by elem_ok: `<elem>.find('declname')` (the fallback to
+    <defname> is judged by the polarity rule), or a helper that returns exactly that for its argument."""
+    if isinstance(e, ast.Call) and isinstance(e.func, ast.Attribute) and e.func.attr == "find" and e.args and isinstance(e.args[0], ast.Constant) \
+            and e.args[0].value == "declname":
+        return bool(elem_ok(e.func.value))
+    if isinstance(e, ast.Call) and isinstance(e.func, ast.Attribute) and unparse(e.func.value) in ("self", ci.qual) and len(e.args) == 1 and elem_ok(e.args[0]):
+        h = prog.find_method(ci, e.func.attr)
+        if h is None:
+            return False
+        hf = h[1]
+        hp = [a.arg for a in hf.args.args if a.arg != "self"]
+        firsts = [st.value for st in walk_no_nested(hf) if isinstance(st, (ast.Assign, ast.Return)) and st.value is not None
+                  and isinstance(st.value, ast.Call) and isinstance(st.value.func, ast.Attribute) and st.value.func.attr == "find"
+                  and st.value.args and isinstance(st.value.args[0], ast.Constant) and st.value.args[0].value == "declname"]
+        return len(hp) == 1 and bool(firsts) and all(unparse(x.func.value) == hp[0] for x in firsts)
+    return False
+
+
 def rule_lookup_provenance(ctx, rep: Report, rid="Q5"):
     prog = ctx.prog
     ci = prog.cls("XMLDocParser")
@@ -630,24 +721,25 @@ def rule_lookup_provenance(ctx, rep: Report, rid="Q5"):
         vs = [st.value for st in la.get(name, []) if isinstance(st, ast.Assign)]
         return unparse(vs[0]).replace(" ", "") if len(vs) == 1 else ""
     # arity
+    def expr_of(name) -> Optional[ast.AST]:
+        vs = [st.value for st in la.get(name, []) if isinstance(st, ast.Assign)]
+        return vs[0] if len(vs) == 1 else None
     arity = False
+    plist = [n for n in la if value_of(n) == f"{cand}.findall('param')"]
     for i in ast.walk(outer):
         if isinstance(i, ast.If) and isinstance(i.test, ast.BoolOp) and isinstance(i.test.op, ast.And) and len(i.test.values) == 2 \
-                and any(isinstance(x, ast.Continue) for x in i.body):
-            sides = []
+                and any(isinstance(x, ast.Continue) for x in i.body) and plist:
+            kinds = []
             for c in i.test.values:
                 if isinstance(c, ast.Compare) and len(c.ops) == 1 and isinstance(c.ops[0], ast.NotEq) \
-                        and unparse(c.left).replace(" ", "") == f"len({names_p})" and isinstance(c.comparators[0], ast.Name):
-                    sides.append(value_of(c.comparators[0].id))
-            plist = [n for n in la if value_of(n) == f"{cand}.findall('param')"]
-            if len(sides) == 2 and plist:
-                tot = f"len({plist[0]})"
-                tot_names = [n for n in la if value_of(n) == tot]
-                has_tot = tot in sides or any(x == tot for x in sides)
-                has_req = any(("defval" in x and "sum(" in x and any(x.startswith(tn + "-") for tn in tot_names)) for x in sides)
-                arity = has_tot and has_req
+                        and unparse(c.left).replace(" ", "") == f"len({names_p})":
+                    e = c.comparators[0]
+                    e = expr_of(e.id) if isinstance(e, ast.Name) and expr_of(e.id) is not None else e
+                    kinds.append(_count_kind(prog, ci, ff, e, plist[0], la))
+            arity = sorted(kinds) == ["required", "total"]
     rep.add(rid, "candidates kept only if the parameter count equals the given count (required or total)", arity,
-            "arity filter `len(names) != required and len(names) != total -> skip` not found", f"{ci.mod.rel}:{ff.lineno}")
+            "arity filter `len(names) != required and len(names) != total -> skip` not found (total = number of <param>, required = total minus "
+            "those with a <defval>)", f"{ci.mod.rel}:{ff.lineno}")
     # names at the same index: `for i, n in enumerate(names)` with params[i], or `for p, n in zip(params, names)`;
     # in filter_member_defs itself or in a helper it calls with the given names
     names_ok = False
@@ -673,11 +765,11 @@ def rule_lookup_provenance(ctx, rep: Report, rid="Q5"):
             fname = unparse(l.iter.func)
             a_, b_ = [t.id for t in l.target.elts]
             if fname == "enumerate" and len(l.iter.args) == 1 and unparse(l.iter.args[0]) == np_:
-                n_var, elem_pat = b_, lambda x, i_=a_: f"[{i_}].find('declname')" in x
+                n_var, elem_ok = b_, (lambda x, i_=a_: isinstance(x, ast.Subscript) and unparse(x.slice) == i_)
             elif fname == "zip" and len(l.iter.args) == 2 and unparse(l.iter.args[1]) == np_:
-                n_var, elem_pat = b_, lambda x, e_=a_: x.startswith(f"{e_}.find('declname')")
+                n_var, elem_ok = b_, (lambda x, e_=a_: isinstance(x, ast.Name) and x.id == e_)
             elif fname == "zip" and len(l.iter.args) == 2 and unparse(l.iter.args[0]) == np_:
-                n_var, elem_pat = a_, lambda x, e_=b_: x.startswith(f"{e_}.find('declname')")
+                n_var, elem_ok = a_, (lambda x, e_=b_: isinstance(x, ast.Name) and x.id == e_)
             else:
                 continue
             for c in ast.walk(l):
@@ -685,12 +777,12 @@ def rule_lookup_provenance(ctx, rep: Report, rid="Q5"):
                     l_, r_ = unparse(c.left), unparse(c.comparators[0])
                     other = r_ if l_ == n_var else (l_ if r_ == n_var else None)
                     if other and other.endswith(".text"):
-                        srcs = [unparse(st.value).replace(" ", "") for st in la_.get(other[:-5], []) if isinstance(st, ast.Assign)]
+                        srcs = [st.value for st in la_.get(other[:-5], []) if isinstance(st, ast.Assign)]
                         rejecting = enclosing(c, ast.If) is not None and any(
                             (isinstance(x, ast.Assign) and isinstance(x.value, ast.Constant) and x.value.value is True) or
                             (isinstance(x, ast.Return) and isinstance(x.value, ast.Constant) and x.value.value is False)
                             for x in enclosing(c, ast.If).body)
-                        if any(elem_pat(x) for x in srcs) and rejecting:
+                        if any(_declared_name_of(prog, ci, x, elem_ok) for x in srcs) and rejecting:
                             names_ok = True
     rep.add(rid, "candidates kept only if every given name equals the declared name at the same index", names_ok,
             "name filter `given name != declared name at the same index -> eliminate` not found", f"{ci.mod.rel}:{ff.lineno}")
@@ -830,6 +922,9 @@ def rule_filter_polarities(ctx, rep: Report, rid="Q5"):
                     counted = (p_.body.value, p_.orelse.value)
                 elif isinstance(p_, ast.comprehension):
                     counted = (1, 0)
+                elif isinstance(p_, ast.If) and p_.test is x and not p_.orelse and len(p_.body) == 1 and isinstance(p_.body[0], ast.AugAssign) \
+                        and isinstance(p_.body[0].op, ast.Add) and isinstance(p_.body[0].value, ast.Constant):
+                    counted = (p_.body[0].value.value, 0)      # counting loop: `if <has default>: n += 1`
                 has_default_counts = None
                 if counted is not None:
                     yes, no = counted
